@@ -603,6 +603,26 @@ func (w *World) destination(m *MsgSpec, kind, issuer string) (string, bool) {
 		return w.IDPModel.Location(kind, w.IDPModel.Issuer(h, hdr)), true
 	case "foreign":
 		return "https://evil.example/SSO", true
+	case "query":
+		return adv + "?x=1", true
+	case "bare-query":
+		return adv + "?", true
+	case "fragment":
+		return adv + "#sso", true
+	case "userinfo":
+		return strings.Replace(adv, "://", "://user@", 1), true
+	case "pct":
+		if i := strings.LastIndex(adv, "/"); i >= 0 && i+1 < len(adv) {
+			return adv[:i+1] + fmt.Sprintf("%%%02X", adv[i+1]) + adv[i+2:], true
+		}
+		return adv + "%2F", true
+	case "request-host":
+		// what a client that dials the provider under another name would compose: the Host header it sends + the path it requests
+		scheme := "https://"
+		if w.cfg.IDP.Insecure {
+			scheme = "http://"
+		}
+		return scheme + hostFor(m, &w.cfg.IDP) + w.IDPModel.Route(kind), true
 	case "metadata-base":
 		// the endpoint's path below the URL under which the metadata document is published (when it is published externally)
 		if e := w.cfg.IDP.Metadata; e.Set && e.URL != "" {
@@ -708,6 +728,9 @@ func BuildRequest(w *World, t *Task, m *MsgSpec) (*http.Request, *Sent, error) {
 		s.Method, s.Path = "GET", "/healthz"
 	case "ready":
 		s.Method, s.Path = "GET", "/ready"
+		if m.Head {
+			s.Method = "HEAD"
+		}
 	case "raw":
 		s.Method, s.Path, s.RawQuery, s.Body, s.ContentType = m.Method, m.RawPath, m.RawQuery, []byte(m.RawBody), m.RawCT
 		if s.Method == "" {
@@ -794,6 +817,16 @@ func BuildRequest(w *World, t *Task, m *MsgSpec) (*http.Request, *Sent, error) {
 	}
 	req.Host = s.Host
 	req.RequestURI = target
+	switch m.Proto {
+	case 1:
+		req.Proto, req.ProtoMajor, req.ProtoMinor = "HTTP/1.0", 1, 0
+		w.probe("request_http_1_0")
+	case 2:
+		req.Proto, req.ProtoMajor, req.ProtoMinor = "HTTP/2.0", 2, 0
+	}
+	if m.ReqIDHdr != "" {
+		req.Header.Set("X-Request-Id", m.ReqIDHdr)
+	}
 	if m.TLS {
 		req.TLS = &tls.ConnectionState{Version: tls.VersionTLS13, HandshakeComplete: true, ServerName: safeHost(s.Host)}
 	}
@@ -885,7 +918,7 @@ func (w *World) stampCommon(m *MsgSpec, sp *SPNode, s *Sent, kind string, f *req
 	switch m.DestMode {
 	case "", "advertised", "absent":
 	default:
-		if !m.Probe && !(m.DestMode == "issuer-route" && f.Destination == w.IDPModel.Location(kind, s.IdPIssuer)) {
+		if !m.Probe && !((m.DestMode == "issuer-route" || m.DestMode == "request-host") && f.Destination == w.IDPModel.Location(kind, s.IdPIssuer)) {
 			w.notConformant(s, "destination "+m.DestMode)
 		}
 	}
@@ -979,6 +1012,12 @@ func (w *World) encodeFrontChannel(t *Task, m *MsgSpec, sp *SPNode, s *Sent, xml
 	alg := sigAlgURI(m.Sign)
 	kp := w.signKey(m, sp)
 	s.Relay, s.HasRelay = m.RelayState, m.HasRelay || m.RelayState != ""
+	if len(m.RelayState) > 80 {
+		w.notConformant(s, "RelayState longer than 80 bytes")
+	}
+	if len(m.RelayState) == 80 {
+		w.probe("relaystate_of_exactly_80_bytes")
+	}
 	binding := m.Binding
 	if binding == "" {
 		binding = "redirect"
@@ -1028,6 +1067,13 @@ func (w *World) encodeFrontChannel(t *Task, m *MsgSpec, sp *SPNode, s *Sent, xml
 			w.probe("post_base64_with_line_breaks")
 		case 2:
 			b64 = wrapAt(b64, 64)
+			w.probe("post_base64_with_line_breaks")
+		case 3:
+			// every line terminated, the last one too (openssl base64, Python encodebytes, Ruby encode64)
+			b64 = strings.ReplaceAll(wrapAt(b64, 76), "\n", "\r\n") + "\r\n"
+			w.probe("post_base64_with_line_breaks")
+		case 4:
+			b64 = wrapAt(b64, 60) + "\n"
 			w.probe("post_base64_with_line_breaks")
 		}
 		form.Set("SAMLRequest", b64)
